@@ -24,6 +24,17 @@ NOT_APPLICABLE = {
 
 # id -> (technique, level text, level note, design ref)
 CLAIMS = {
+    'C28': ('linear-form guard/extent agreement (bounds), who-may-write lint with local alias tracking (owner), '
+            'paired-update shape, copy-table parity, statement-order rule in POSCAR_occ',
+            'Static, exhaustive over the Supercell class and every function of the package and bin/: decides that the '
+            'species guard of setocc admits exactly [vacancy sentinel, extent of chemorder - 1] for every value of the '
+            'constructor parameters, that only the five owner routines write occ/chemorder and each store carries its '
+            'chemorder update, that copy() deep-copies every in-place-mutated attribute, and that POSCAR_occ empties '
+            'before reading. These are necessary conditions of consistency over every edit history; the POSCAR text '
+            'round trip and geometry are not decided.',
+            'trusts CPython ast; owner table of five routines confirmed by reading; receivers named self inside '
+            'MonteCarloSampler* are that class\'s own occ',
+            'DESIGN.md §4 C28'),
     'C36': ('AST lint of __eq__/__ne__/__hash__ shape + symtable name resolution + linear-form comparison of '
             'PairState arithmetic',
             'Static, exhaustive over the five value types: decides that __ne__ negates __eq__, hash reads only '
